@@ -16,6 +16,7 @@ type propDef struct {
 	Explanation string
 	Assumptions []string
 	Declined    []string
+	Thorough    func(r *Run) // extra rules evaluated only in the thorough tier (whole-program analyses)
 }
 
 var props = map[string]*propDef{}
@@ -113,6 +114,9 @@ func runProperty(P *Prog, pd *propDef, tier, verif string, list bool, repo strin
 			}
 		}()
 		pd.Run(r)
+		if tier == "thorough" && pd.Thorough != nil && os.Getenv("HAQQCHECK_NESTED") == "" {
+			pd.Thorough(r)
+		}
 		if tier == "thorough" {
 			thoroughExtras(r, pd, repo, verif)
 		}
